@@ -98,7 +98,8 @@ def cases(tier, seed):
         for form in _forms(nel):
             for load in STD_LOADS:
                 for n in (1, 3, 10) if thorough else (1, 3):
-                    add(kind="cantilever", form=form, load=load, nsteps=n, opts="tight", places=P6 if (thorough and nel == 2 and n == 3) else P3)
+                    add(kind="cantilever", form=form, load=load, nsteps=n, opts="tight",
+                        places=(P6 if (thorough and nel == 2 and n == 3) else P3) + (["near_halfturn_mixed"] if n == 3 else []))
             for load in ("disp", "dispF"):
                 for n in (3, 10) if thorough else (3,):
                     add(kind="cantilever", form=form, load=load, nsteps=n, opts="tight", places=P3)
